@@ -298,6 +298,7 @@ func dischargeAll(cfg *solveCfg, jr *JobResult, sem chan struct{}) {
 			}
 			return out
 		}
+		sweepable := o.Kind == "safety" && o.Cut && (o.Label == "nil" || o.Label == "typeassert") && jr.Contract != nil && jr.Contract.Abstracted
 		run := func(id string, sc [4]string) Result {
 			var att []string
 			if sc[1] != "" {
@@ -333,6 +334,11 @@ func dischargeAll(cfg *solveCfg, jr *JobResult, sem chan struct{}) {
 					return r
 				}
 				att = append(att, r.Attempt...)
+			}
+			if sweepable {
+				// a nil / type test behind an abstracted call: if the quick
+				// stages do not prove it, it is listed as unproved either way
+				return Result{Status: "unknown", Solver: "skipped", Attempt: append(att, "not pursued: listed as unproved when not proved quickly")}
 			}
 			if sc[3] != "" {
 				r := solveLIA(cfg, id+".lia", sc[3])
